@@ -202,7 +202,7 @@ theorem imageBlock_id (ref : Seq) (v : Var) (b : Blk) (hv : v.s < v.e) (hvn : v.
     image has no bases (F-C13b; the property wants the EmptyLocation there). -/
 theorem lift1_single_clean (ref : Seq) (v : Var) (b : Blk) (st : Strand) (hv : v.s < v.e) (hvn : v.e ≤ ref.length)
     (hb : b.1 < b.2) (hbn : b.2 ≤ ref.length) (hc : Clean v b) :
-    lift1 .whole ref v (.single b st) =
+    lift1 false .whole ref v (.single b st) =
       (match nonEmpty (imageBlock ref [toEdit 0 v] b) with
        | some ib => .ok (.single ib st)
        | none => .error .EmptyLocation) := by
@@ -253,7 +253,7 @@ theorem lift1_single_verdict (ref : Seq) (v : Var) (b ib : Blk) (st : Strand) (h
     rw [hib.1]; exact block_reads_image ref v b hv hvn (Nat.le_of_lt hb) hbn
   have halt := altSeq1_altOf 0 ref v (by simpa using hv) (by simpa using hvn)
   unfold okLift
-  simp only [hvalid, hgood, hclean, Bool.not_true, Bool.false_or, List.isEmpty_cons, Bool.or_false, hst, if_false,
+  simp only [hvalid, hgood, hclean, Bool.not_true, List.isEmpty_cons, Bool.or_false, hst,
     if_true, List.map_cons, List.map_nil, decide_false, ← hib.1, hnorm ib hib.2, imageSeq, extractSeq,
     List.flatMap_cons, List.flatMap_nil, List.append_nil, hseq, ← halt]
   have : (List.drop ib.1 (altSeq1 0 ref v)).take (ib.2 - ib.1) = image ref [toEdit 0 v] b.1 b.2 := hseq
